@@ -118,6 +118,20 @@ def gen_cases(ctx, nbase):
                         m[1] = sum(m[2:2 + m[0]]) & 0xff
                     out.append(mk(bytes(m) + tail, {lvl, "extsize-perturbed"}, note="crit"))
                 off += len(d) + 1 + fs
+            if f.level == 1:
+                # the level-1 skip-size field (extended headers + data) set BELOW the size of the extended headers that follow, checksum
+                # re-fixed: the chain points outside what the header says belongs to the member – must not be returned (independent judge)
+                ext_total = sum(len(d) + 1 + fs for _, d in g.exts)
+                for v in sorted({0, 1, ext_total - 1, ext_total - 2, ext_total // 2, r.randrange(ext_total)}):
+                    if v < 0 or v >= ext_total:
+                        continue
+                    m = bytearray(hb2)
+                    m[7:11] = v.to_bytes(4, "little")
+                    m[1] = sum(m[2:2 + m[0]]) & 0xff
+                    c = mk(bytes(m) + tail, {lvl, "skip-size<ext-chain"}, note="crit")
+                    c.spec_judge = (lambda co, so: ("implementation crashed: " + co[:100]) if co.startswith(("CRASH", "TIMEOUT")) else
+                                    "a level-1 header whose skip size does not even cover its own extended headers was returned" if co.startswith("ok ") else None)
+                    out.append(c)
             for delta in (1, 2, 3, 4, 5):
                 out.append(mk(hb2[:len(hb2) - delta], {lvl, "cut-no-crc"}, note="crit"))
                 if f.level >= 2:
@@ -127,6 +141,25 @@ def gen_cases(ctx, nbase):
                     else:
                         m[24:28] = (len(m)).to_bytes(4, "little")
                     out.append(mk(bytes(m), {lvl, "cut-no-crc+len"}, note="crit"))
+    # (the skip-size rule on dedicated level-1 headers that certainly carry extended headers)
+    for _ in range(6):
+        g = G.rand_fields(r, level=1)
+        g.name = g.name[:24]
+        g.exts = (g.exts[:3] or [(0x7e, b"xyz")])
+        g.common_crc = False
+        hb2 = E.encode(g)
+        tail = bytes(r.randrange(256) for _ in range(6))
+        ext_total = sum(len(d) + 3 for _, d in g.exts)
+        out.append(mk(hb2 + tail, {"L1", "unmodified"}))
+        for v in sorted({0, 1, ext_total - 1, ext_total - 2, ext_total // 2, r.randrange(ext_total)}):
+            if 0 <= v < ext_total:
+                m = bytearray(hb2)
+                m[7:11] = v.to_bytes(4, "little")
+                m[1] = sum(m[2:2 + m[0]]) & 0xff
+                c = mk(bytes(m) + tail, {"L1", "skip-size<ext-chain"}, note="crit")
+                c.spec_judge = (lambda co, so: ("implementation crashed: " + co[:100]) if co.startswith(("CRASH", "TIMEOUT")) else
+                                "a level-1 header whose skip size does not even cover its own extended headers was returned" if co.startswith("ok ") else None)
+                out.append(c)
     # the common CRC header FOLLOWED by each other extended-header type (and preceded by it): whatever a later header's decoder does to the
     # header object, the whole-header CRC must still be checked - one byte of the later header's data is substituted, CRC left alone
     known = [(0x01, b"name.txt"), (0x02, b"dir\xff"), (0x41, bytes(24)), (0x50, (0o100644).to_bytes(2, "little")), (0x51, bytes(4)),
